@@ -54,7 +54,9 @@ pub fn run_workload(case: &Case) -> WorkloadRun {
     };
     let dev = trace::register(&path, true);
     trace::mark(&dev, Mark::OpenBegin);
-    let flags = Flags { results: true, snapshot: true, ..Flags::default() };
+    // the per-step snapshot comparison is O(keys): with thousands of keys it would slow the
+    // application down so much that the background flusher drains every few calls
+    let flags = Flags { results: true, snapshot: case.keys.len() < 600, ..Flags::default() };
     let mut hist: BTreeMap<Vec<u8>, Vec<Hist>> = BTreeMap::new();
     for k in &case.keys {
         hist.insert(k.clone(), vec![Hist { step: -1, gen: None }]);
@@ -71,7 +73,11 @@ pub fn run_workload(case: &Case) -> WorkloadRun {
     runner.readback_policy = Some(2);
     let mut usable = true;
     let mut note = String::new();
+    let dbg_t0 = std::time::Instant::now();
     for (step, op) in case.ops.iter().enumerate() {
+        if std::env::var("FXV_DEBUG_MASS").is_ok() && step % 500 == 0 && case.keys.len() > 600 {
+            eprintln!("mass workload step {step} at {:?}", dbg_t0.elapsed());
+        }
         trace::mark(&dev, Mark::OpBegin { step, now: runner.model.now });
         if matches!(op, Op::Flush) {
             trace::mark(&dev, Mark::FlushBegin { step });
@@ -443,6 +449,11 @@ fn splitmix(x: &mut u64) -> u64 {
 
 /// Subsets / tearings for `v` volatile writes (DESIGN §4.4); `extra` random masks.
 pub fn variants(v: usize, extra: usize, torn: usize, rng: &mut u64) -> Vec<(Vec<bool>, Option<(usize, u64)>)> {
+    variants_with(v, extra, torn, 24, rng)
+}
+
+/// `flips`: how many of the first un-synced writes are flipped one at a time.
+pub fn variants_with(v: usize, extra: usize, torn: usize, flips: usize, rng: &mut u64) -> Vec<(Vec<bool>, Option<(usize, u64)>)> {
     let mut out: Vec<(Vec<bool>, Option<(usize, u64)>)> = Vec::new();
     if v == 0 {
         out.push((Vec::new(), None));
@@ -451,7 +462,7 @@ pub fn variants(v: usize, extra: usize, torn: usize, rng: &mut u64) -> Vec<(Vec<
     out.push((vec![true; v], None));
     out.push((vec![false; v], None));
     if v > 1 {
-        for i in 0..v.min(24) {
+        for i in 0..v.min(flips) {
             let mut a = vec![true; v];
             a[i] = false;
             out.push((a, None));
@@ -463,6 +474,12 @@ pub fn variants(v: usize, extra: usize, torn: usize, rng: &mut u64) -> Vec<(Vec<
             let m: Vec<bool> = (0..v).map(|_| splitmix(rng) & 1 == 1).collect();
             out.push((m, None));
         }
+    }
+    if torn > 0 {
+        // the most recent write is the one most likely in flight: torn so that everything but
+        // its head block / only its head block reached the device, the earlier ones complete
+        out.push((vec![true; v], Some((v - 1, !0xFFu64))));
+        out.push((vec![true; v], Some((v - 1, 0xFFu64))));
     }
     for t in 0..torn {
         let which = (splitmix(rng) as usize) % v;
@@ -553,6 +570,11 @@ pub struct Budget {
     pub max_points: usize,
     pub c04_depth: usize,
     pub c04_every: usize,
+    /// single-write flips per crash point (24 by default; fewer for very large images)
+    pub single_flips: usize,
+    /// very large images: only crash points of the last flush - right before and after each of
+    /// its fsyncs plus `max_points` sampled ones
+    pub tail_only: bool,
 }
 
 fn overwrote_before_ack(run: &WorkloadRun, acked: i64) -> bool {
@@ -583,6 +605,24 @@ pub fn explore(run: &WorkloadRun, case: &Case, which: &str, budget: &Budget, sta
         keep.dedup();
         points = keep;
     }
+    if budget.tail_only {
+        let start = entries.iter().rposition(|e| matches!(e, Entry::Mark(Mark::FlushBegin { .. }))).unwrap_or(0);
+        let mut keep: Vec<usize> = Vec::new();
+        for p in start..entries.len() {
+            if matches!(entries[p], Entry::FsyncEnd { .. } | Entry::Mark(Mark::FlushOk { .. })) {
+                keep.push(p);
+            }
+            if p + 1 < entries.len() && matches!(entries[p + 1], Entry::FsyncBegin) {
+                keep.push(p);
+            }
+        }
+        for _ in 0..budget.max_points {
+            keep.push(start + (splitmix(&mut rng) as usize) % (entries.len() - start));
+        }
+        keep.sort();
+        keep.dedup();
+        points = keep;
+    }
     let t0 = T0 + case.t0_offset;
     let mut image_no = 0usize;
     let mut quiet_seen = 0usize;
@@ -594,7 +634,7 @@ pub fn explore(run: &WorkloadRun, case: &Case, which: &str, budget: &Budget, sta
             continue;
         }
         let nwrites = durable.len() + volatile.len();
-        for (subset, torn) in variants(volatile.len(), budget.extra_masks, budget.torn, &mut rng) {
+        for (subset, torn) in variants_with(volatile.len(), budget.extra_masks, budget.torn, budget.single_flips, &mut rng) {
             if !seen.insert((nwrites, durable.len(), subset.clone(), torn, info.acked, info.begun)) {
                 continue;
             }
